@@ -156,7 +156,7 @@ def run(tier, seed, factor=1):
     N = common.scale(tier, 4, 5)
     cfgs = speccheck.make_configs(rnd, common.scale(tier, 120, 1500) * factor)
     for _ in range(max(6, len(cfgs) // 10)):  # U-gram: unions with a repeated child, products, reverse rules
-        cfgs.append(dict(gram=[rnd.choice(["S", "S", "F", "Y", "E"]) for _ in range(rnd.choice([1, 2, 2]))], gram_flat=True, alpha="ab",
+        cfgs.append(dict(gram=[rnd.choice(["S", "S", "M", "M", "F", "Y", "E"]) for _ in range(rnd.choice([1, 2, 2]))], gram_flat=True, alpha="ab",
                          db=rnd.choice(["RuleDB", "RuleDBForgetStrategy", "RuleDBForest"]), seed=rnd.randrange(10**6), perc=rnd.choice([100, 20, 1]),
                          smallest=False, expand_verified=False))
     outs = specrun.pool_map(spec_worker, [(c, N) for c in cfgs])
